@@ -232,7 +232,6 @@ Proof.
   intros Hwf. destruct (vga_fill_spec c m x y width height fg bg Hwf) as [m' [E [E1 E2]]].
   exists m'. split; auto. split; [eapply vga_wf_keep; eauto|].
   unfold grid_eq, grid_equiv. cbn [g_fill gw gh vga_grid gcell]. repeat split; auto.
-  intros cx cy G. apply E2. exact G.
 Qed.
 
 Lemma vga_scroll_refines c m dir d lines :
@@ -263,6 +262,6 @@ Proof.
       destruct (N.ltb_spec ((cy - 1) * vw c + (cx - 1)) (vh c * vw c)) as [L2|L2];
       destruct (N.ltb_spec lines cy) as [L'|L']; cbn [andb]; try lia; auto.
     f_equal. replace (cy - lines - 1) with (cy - 1 - lines) by lia.
-    assert (lines * vw c <= (cy - 1) * vw c) by (apply N.mul_le_mono_r; lia).
-    rewrite N.mul_sub_distr_r. lia.
+    assert (Hm: lines * vw c <= (cy - 1) * vw c) by (apply N.mul_le_mono_r; lia).
+    rewrite (N.mul_sub_distr_r (cy - 1) lines (vw c)). clear - Hm. lia.
 Qed.
